@@ -59,7 +59,7 @@ def areas(env, topo, flip_all):
 
 def neighbours(env, topo, remove):
     import forsys as fs
-    spec = catalogue(topo, n_spoke=3, n_border=2)
+    spec = catalogue(topo, n_spoke=3) if topo.startswith("T3+") else catalogue(topo, n_spoke=3, n_border=2)
     b = tissue.build(spec, fs)
     fr = fs.frames.Frame(0, b.vertices, b.edges, b.cells, time=0)
 
@@ -93,6 +93,7 @@ def jobs(tier):
     for topo in (("T3", "K3") if tier == "quick" else ("T3", "T4", "K3", "K4", "R7")):
         for flip in (False, True):
             js.append(Job(f"area-sum-{topo}-{'cw' if flip else 'ccw'}", "c20_tissue:areas", dict(topo=topo, flip_all=flip), budget_s=600, weight=3))
-    for topo, rm in (("T3", None), ("K3", None), ("K3", "n0"), ("T4", "c1"), ("K4", "n2"), ("R7", "n3")):
+    for topo, rm in (("T3", None), ("K3", None), ("K3", "n0"), ("T4", "c1"), ("K4", "n2"), ("R7", "n3"),
+                     ("T3+pendant", None), ("T3+2pendants", "c1")):      # cells touching only at vertices shared by two cells
         js.append(Job(f"neighbours-{topo}-remove={rm}", "c20_tissue:neighbours", dict(topo=topo, remove=rm), budget_s=300))
     return js
